@@ -219,7 +219,7 @@ func (t *Truth) Resolve() map[string]Resolved {
 		}
 		if len(at) == 1 {
 			dev := q[strings.Index(q, "=")+1:]
-			out[q] = Resolved{Path: at[0].Path, Prio: top, Marker: at[0].Meta.Marker(dev), Meta: at[0].Meta}
+			out[q] = Resolved{Path: at[0].Path, Prio: top, Marker: at[0].Meta.FullMarker(dev), Meta: at[0].Meta}
 		}
 	}
 	return out
@@ -325,7 +325,7 @@ func (t *Truth) VendorSpecs(v string) []string {
 	set := map[string]bool{}
 	for _, f := range t.Files {
 		if f.State == "valid" && f.Meta.Vendor == v {
-			set[fmt.Sprintf("%s|%d|%s|%s", f.Path, f.DirIdx, f.Meta.Vendor, f.Meta.Class)] = true
+			set[fmt.Sprintf("%s|%d|%s|%s|%s", f.Path, f.DirIdx, f.Meta.Vendor, f.Meta.Class, f.Meta.SpecMarker())] = true
 		}
 	}
 	return keys(set)
